@@ -28,6 +28,46 @@ CHECKS = {
             "holdings_values('liquidation') and context() agree.",
             "Same bounds as C01. A state right after a bare quote update is not an observation point (statement does not claim it).",
             "DESIGN 4/C05"),
+    "C04": ("exploration",
+            "bounded-exhaustive enumeration of event placements/configurations on the real TradingEnv+Transmitter with a recording observer, compared with a delivery reference model",
+            "Latency {0,30s} x fold {whole, late, middle} x history {all, markov, warm-up 1 or 2 gaps} fully crossed, times every assignment of grid shape "
+            "(minutes, days across a weekend, mixed gaps), 1-2 contracts, episode length/start (through a chooser seam on numpy.random.choice), unsorted+duplicated "
+            "grid input, insertion order, and every multiset of extra quote/custom events over ~26 region/boundary positions, within a total deviation bound "
+            "(2 quick / 3 thorough); two consecutive episodes per configuration. Oracle: exactly-once delivery at the right step and side of the execution, "
+            "reset replay per warm-up/markov rule, global timestamp order incl. reset/step/done/new-date stamps, env.now(), track-record stamps, book state after reset.",
+            "Bar streams (a quote per contract per grid point); zero actions; leniencies for events before the first grid point under markov reset and "
+            "events stamped before the warm-up horizon whose slot is inside it.",
+            "DESIGN 4/C04"),
+    "C08": ("exploration",
+            "bounded-exhaustive enumeration of complete episodes: all action sequences x delays x latency-boundary quotes on the real TradingEnv",
+            "5-bar streams x latency {0,30s} x all subsets of <=1 (quick) / <=2 (thorough) extra quotes at {t+1s, t+L, t+L+1s, t'-1s} x delay 0..3 x "
+            "{Box, Discrete (zero / non-zero first allocation)} x all 81 action sequences over 3 pairwise-distinct actions: executed allocation = decision "
+            "submitted d steps earlier (null action first), one execution per decision in order, every trade priced at the last quote stamped <= t+latency, "
+            "quotes in (t+L, t'] applied only after the execution.",
+            "Bar-shaped streams; null action inside the space.",
+            "DESIGN 4/C08"),
+    "C10": ("exploration",
+            "exhaustive enumeration of call histories (differential probe vs fresh environment) and of ALL interleavings of two environments' call scripts",
+            "Sequential: every call history of length <= 3 (quick) / 5 (thorough) over {reset fold1/fold2, step a1/a2, malformed step, run-to-done} on 5 "
+            "configurations, then a probe episode compared bit-for-bit with a never-used identical environment. Schedules: all C(2n,n) interleavings (n=4 quick, "
+            "5 thorough) of two environments' scripts for 7 pairs incl. two ES-chain environments at different dates sharing the process-wide contract clock; "
+            "each trace must equal its run-alone trace.",
+            "Environments constructed before the first interleaved call; library features only; no random episode start.",
+            "DESIGN 4/C10"),
+    "C12": ("exploration",
+            "bounded-exhaustive: every reachable broker state (ledger BFS) x target x threshold (exact boundary cases on power-of-two palettes) x lot mode against R-FILTER",
+            "From every broker state reached within 2 (quick) / 3 (thorough) operations, Rebalancing.make_trades and the executed Broker.rebalance are compared "
+            "with the emission rule of the statement for 8 weight targets, 4 contract targets, 18 sub/super-lot targets, thresholds {0, |w|/2, 2|w|} and - where "
+            "all arithmetic is exact - {|w|-2^-20, |w|, |w|+2^-20}, fractional and whole-lot.",
+            "NLV > 0, all quotes present. Whole-lot threshold verdict accepted for either pre- or post-truncation weight.",
+            "DESIGN 4/C12"),
+    "C19": ("exploration",
+            "whole-domain enumeration of (class, year, month) and a lattice of chain spans against a stdlib calendar reference",
+            "All 8 built-in classes x 1970..2099 x 12 months (12480 contracts, the complete domain) plus FutureChain for every class over spans of "
+            "1/2/5/30/130 years on a yearly lattice with start-month offsets 0-2 and chain month offsets 0-1: expiry rule, last trading date < expiry, symbol, "
+            "ordering, century-unique symbols, one discontinuation event per contract at its expiry.",
+            "Exhaustive for single contracts; chains on a lattice of spans.",
+            "DESIGN 4/C19"),
 }
 
 ALL = ["C%02d" % i for i in range(1, 20)]
